@@ -84,7 +84,7 @@ def dof_counts(ctx):
 ROWS = [(1, 1, 1), (1, -1, 0), (0, 1, -1), (-1, 0, 1), (1, 0, 0), (0, 0, -1), (1, 1, 0), (-1, -1, -1), (1, -1, -1), (0, 0, 0), (2, -1, -1)]
 
 
-def _row_value(e, M, E, row, env):
+def _row_value(e, M, E, row, env, K=None, k=None):
     """Value of an expression over the multiplier table M for the element E whose row of multipliers is `row`
     (finite-domain evaluation by the checker: sums / any / all / counts along the row, comparisons, boolean operators).
     Names bound before the loop to such expressions are looked up in env (name -> defining expression)."""
@@ -139,6 +139,8 @@ def _row_value(e, M, E, row, env):
             s = unparse(x.slice).replace(" ", "")
             if s in (E, "%s,:" % E, "(%s,slice(None,None,None))" % E):
                 return _n.array(row)
+            if K is not None and s in ("%s,%s" % (E, K), "(%s,%s)" % (E, K)):
+                return row[k]
             raise AnalysisError("invert_local2global: multiplier table indexed by `%s`" % s)
         if isinstance(x, ast.Compare) and len(x.ops) == 1:
             return _N._map(_cmp[type(x.ops[0])], arr(x.left), arr(x.comparators[0]))
@@ -155,6 +157,11 @@ def _row_value(e, M, E, row, env):
             return _N._map(_bin[type(x.op)], arr(x.left), arr(x.right))
         if isinstance(x, ast.Subscript) and isinstance(x.slice, ast.Name) and x.slice.id == E:
             return arr(x.value)  # a per-element vector computed before the loop, read at this element
+        if K is not None and isinstance(x, ast.Subscript) and isinstance(x.slice, ast.Name) and x.slice.id == K:
+            v = arr(x.value)
+            if not isinstance(v, list):
+                raise AnalysisError("invert_local2global: `%s` indexes a scalar" % unparse(x)[:60])
+            return v[k]
         if isinstance(x, ast.Call):
             f = unparse(x.func).split(".")[-1]
             recv = x.func.value if isinstance(x.func, ast.Attribute) and not (isinstance(x.func.value, ast.Name) and x.func.value.id in ("_np", "np", "numpy")) else None
@@ -170,11 +177,24 @@ def _row_value(e, M, E, row, env):
     return arr(e)
 
 
-def inverse_dof_map(ctx):
-    """C09 / C16: global2local lists (element, local index) for EVERY slot whose multiplier is non-zero - the colouring
-    and the dual-space builders read the neighbours of a dof from it."""
-    r = ctx.rule("INVERT-L2G", "invert_local2global enters (element, local index) under dof local2global[element, local index] exactly when that slot's multiplier is non-zero, for every element (rows with mixed signs and zeros included)", len(ROWS))
-    fn = ctx.repo.mod(SP).fn("invert_local2global")
+def _decide_tests(body, M, E, row, env, K, k):
+    """The slot loop's body with every `if` test replaced by its value for this row of multipliers and this slot."""
+    import copy
+
+    class T(ast.NodeTransformer):
+        def visit_If(self, node):
+            node.test = ast.Constant(bool(_row_value(node.test, M, E, row, env, K, k)))
+            self.generic_visit(node)
+            return node
+
+    out = [T().visit(copy.deepcopy(st)) for st in body]
+    for st in out:
+        ast.fix_missing_locations(st)
+    return out
+
+
+def _slots(fn):
+    """[(row, entered slots, skipped as a whole, loop over all elements)] of an invert_local2global-shaped function."""
     L, M = arg_names(fn)[:2]
     loops = [s for s in fn.body if isinstance(s, ast.For) and any(isinstance(c, ast.Call) and isinstance(c.func, ast.Attribute) and c.func.attr == "append" for c in ast.walk(s))]
     if len(loops) != 1 or not isinstance(loops[0].target, ast.Name):
@@ -184,10 +204,15 @@ def inverse_dof_map(ctx):
     pre = {s.targets[0].id: s.value for s in fn.body if isinstance(s, ast.Assign) and isinstance(s.targets[0], ast.Name) and s.lineno < lp.lineno}
     full = unparse(lp.iter).replace(" ", "") in ("range(%s)" % n for n, v in pre.items() if unparse(v).replace(" ", "") in ("len(%s)" % L, "%s.shape[0]" % L)) or unparse(lp.iter).replace(" ", "") in ("range(len(%s))" % L, "range(%s.shape[0])" % L)
     inner = [s for s in lp.body if isinstance(s, ast.For)]
+    local = {s.targets[0].id: unparse(s.value).replace(" ", "") for s in lp.body if isinstance(s, ast.Assign) and isinstance(s.targets[0], ast.Name)}
+    it = unparse(inner[0].iter).replace(" ", "") if len(inner) == 1 else ""
+    if it.startswith("enumerate(") and it[10:-1] in local:
+        it = "enumerate(%s)" % local[it[10:-1]]
     if len(inner) != 1 or not (isinstance(inner[0].target, ast.Tuple) and len(inner[0].target.elts) == 2 and all(isinstance(t, ast.Name) for t in inner[0].target.elts)) \
-            or unparse(inner[0].iter).replace(" ", "") != "enumerate(%s[%s])" % (L, E):
+            or it != "enumerate(%s[%s])" % (L, E):
         raise AnalysisError("invert_local2global: inner loop is not `for local_index, dof in enumerate(local2global_map[element])`")
     K, D = (t.id for t in inner[0].target.elts)
+    out = []
     for row in ROWS:
         entered, skipped = [], False
         # statements of the element loop before the inner loop: guards that may skip the element
@@ -203,16 +228,27 @@ def inverse_dof_map(ctx):
                 raise AnalysisError("invert_local2global: statement before the slot loop is not modelled: %s" % unparse(st)[:60])
         if not skipped:
             for k in range(3):
-                env = {"%s[%s, %s]" % (M, E, K): row[k], "%s[%s][%s]" % (M, E, K): row[k]}
-                effs = dispatch.effects(inner[0].body, env, "invert_local2global")
+                effs = dispatch.effects(_decide_tests(inner[0].body, M, E, row, pre, K, k), {}, "invert_local2global")
                 calls = [e[1].replace(" ", "") for e in effs if e[0] == "call"]
                 if calls:
                     if calls != ["global2local_map[%s].append((%s,%s))" % (D, E, K)] and not (len(calls) == 1 and calls[0].endswith("[%s].append((%s,%s))" % (D, E, K))):
                         raise AnalysisError("invert_local2global: unexpected effect %s" % calls)
                     entered.append(k)
+        out.append((row, entered, skipped, full, lp.lineno))
+    return out
+
+
+def inverse_dof_map(ctx):
+    """C09 / C16: global2local lists (element, local index) for EVERY slot whose multiplier is non-zero - the colouring
+    and the dual-space builders read the neighbours of a dof from it."""
+    r = ctx.rule("INVERT-L2G", "invert_local2global enters (element, local index) under dof local2global[element, local index] exactly when that slot's multiplier is non-zero, for every element (rows with mixed signs and zeros included)", len(ROWS))
+    fn = ctx.repo.mod(SP).fn("invert_local2global")
+    for row, entered, skipped, full, line in _slots(fn):
         want = [k for k in range(3) if row[k] != 0]
-        r.check(full and entered == want, "multipliers %s" % (row,), SP, fn.name, lp.lineno, "slots entered for a row of multipliers %s" % (row,),
+        r.check(full and entered == want, "multipliers %s" % (row,), SP, fn.name, line, "slots entered for a row of multipliers %s" % (row,),
                 "an element whose local multipliers are %s is entered for its slots %s, expected %s%s%s" % (row, entered, want, " (the element is skipped as a whole)" if skipped else "", "" if full else "; the loop does not run over all elements"))
+    bad = ast.parse("def f(m, mult):\n    g = [[] for _ in range(1 + _np.max(m))]\n    for e in range(len(m)):\n        for l, d in enumerate(m[e]):\n            g[d].append((e, l))\n    return g").body[0]
+    r.must_fire(any(entered != [k for k in range(3) if row[k] != 0] for row, entered, _, _, _ in _slots(bad)), "global2local without multiplier test")
 
 
 def sparse_grid_guard(ctx):
